@@ -188,7 +188,7 @@ func (m *TCPMuxDefault) createConn(ufrag string, isIPv6 bool, local net.IP, from
 	go func() {
 		defer m.wg.Done()
 		<-conn.CloseChannel()
-		m.removeConnByUfragAndLocalHost(ufrag, connKey)
+		m.removeConnByUfragAndLocalHost(ufrag, connKey, conn)
 	}()
 
 	return conn, nil
@@ -382,13 +382,16 @@ func (m *TCPMuxDefault) RemoveConnByUfrag(ufrag string) {
 	}
 }
 
-func (m *TCPMuxDefault) removeConnByUfragAndLocalHost(ufrag string, localIPAddr ipAddr) {
+// removeConnByUfragAndLocalHost removes and closes closedConn if it is still the connection
+// registered for ufrag and localIPAddr. A newer connection registered under the same key
+// in the meantime is left alone.
+func (m *TCPMuxDefault) removeConnByUfragAndLocalHost(ufrag string, localIPAddr ipAddr, closedConn *tcpPacketConn) {
 	removedConns := make([]*tcpPacketConn, 0, 4)
 
 	// Keep lock section small to avoid deadlock with conn lock
 	m.mu.Lock()
 	if conns, ok := m.connsIPv4[ufrag]; ok {
-		if conn, ok := conns[localIPAddr]; ok {
+		if conn, ok := conns[localIPAddr]; ok && conn == closedConn {
 			delete(conns, localIPAddr)
 			if len(conns) == 0 {
 				delete(m.connsIPv4, ufrag)
@@ -397,7 +400,7 @@ func (m *TCPMuxDefault) removeConnByUfragAndLocalHost(ufrag string, localIPAddr 
 		}
 	}
 	if conns, ok := m.connsIPv6[ufrag]; ok {
-		if conn, ok := conns[localIPAddr]; ok {
+		if conn, ok := conns[localIPAddr]; ok && conn == closedConn {
 			delete(conns, localIPAddr)
 			if len(conns) == 0 {
 				delete(m.connsIPv6, ufrag)
@@ -425,6 +428,11 @@ func (m *TCPMuxDefault) getConn(ufrag string, isIPv6 bool, local net.IP) (val *t
 		// Note: this is missing zone for IPv6
 		connKey := ipAddr(local.String())
 		val, ok = conns[connKey]
+		// A closed connection stays registered until its cleanup goroutine has run.
+		// Do not hand it out or attach to it: the caller creates a fresh one.
+		if ok && val.isClosed() {
+			return nil, false
+		}
 	}
 
 	return
